@@ -180,6 +180,11 @@ func (g *gen) randomPath(allowWild bool) string {
 		if strings.Count(s, "keyvalue") > 1 {
 			continue // known finding pattern, see DESIGN 6.1
 		}
+		if strings.Contains(s, "keyvalue") && textualWild(s) {
+			// A wildcard may meet the three-member {key,value,id} object
+			// that keyvalue() creates: member order again (DESIGN 3.6).
+			continue
+		}
 		if parses(s) {
 			return s
 		}
